@@ -826,35 +826,35 @@ func (vfs *MemFS) Rename(oldpath, newpath string) error {
 		}
 	}
 
-	if oPI.Path() == nPI.Path() {
+	_, oIsDir := oChild.(*dirNode)
+
+	if oPI.Path() == nPI.Path() && (!oIsDir || vfs.OSType() == avfs.OsWindows) {
 		return nil
 	}
 
-	switch oChild.(type) {
-	case *dirNode:
-		if !vfs.isNotExist(nErr) {
-			if vfs.OSType() == avfs.OsWindows {
-				nErr = avfs.ErrWinAccessDenied
+	if nChild != nil {
+		_, nIsDir := nChild.(*dirNode)
+
+		switch {
+		case nIsDir || oIsDir:
+			// newpath can only be replaced by a file or a symbolic link, and only if it is not a directory.
+			err := vfs.err.NotADirectory
+			if nIsDir {
+				err = vfs.err.FileExists
 			}
 
-			return &os.LinkError{Op: op, Old: oldpath, New: newpath, Err: nErr}
-		}
-
-	case *fileNode:
-		if nChild == nil {
-			break
-		}
-
-		switch nc := nChild.(type) {
-		case *fileNode:
-			nc.delete()
-		default:
-			err := error(avfs.ErrFileExists)
 			if vfs.OSType() == avfs.OsWindows {
 				err = avfs.ErrWinAccessDenied
 			}
 
 			return &os.LinkError{Op: op, Old: oldpath, New: newpath, Err: err}
+		case nChild == oChild:
+			// oldpath and newpath are hard links to the same file : nothing to do.
+			return nil
+		default:
+			nChild.Lock()
+			nChild.delete()
+			nChild.Unlock()
 		}
 	}
 
